@@ -2,7 +2,7 @@
 """Generates /verif/MANIFEST.json from the table below (kept in one place so it stays valid)."""
 import json, subprocess
 
-HOOK_COMMITS = ["1b1564e", "aa5657f", "9d07bfc", "a89336f"]
+HOOK_COMMITS = ["1b1564e", "aa5657f", "9d07bfc", "a89336f", "ba367d3"]
 
 # id -> (category, technique, text, note, design_ref)
 CHECKS = {
@@ -22,6 +22,26 @@ CHECKS["C19"] = ("exploration",
    "Period strings from the documented grammar with 64-bit edge numbers, noise and mutations are parsed by the real parser inside the in-crate probe and compared with an independent reference; configurations (field mutations, structural hazards) are loaded by the real binary one process per case and any signal, panic or start-up hang is a violation.",
    "Dev-profile build (overflow checks on); bounded hang detection (model-predicted idle cases excluded).",
    "DESIGN.md 4 C19")
+CHECKS["C02"] = ("exploration",
+   "property-based testing (proptest): issuance histories through the real daemon compared with the bytes the mock CA served; stateful write histories through the real storage functions (in-crate probe) compared with the bytes written; bincode mirror must consume the whole account file",
+   "Histories in which a shorter content follows a longer one (chains, keys of different types, account records) are generated on purpose and counted; after every write/issuance the file must equal exactly the new content.",
+   "Account file bytes are not predictable in black-box runs (random keys, timestamps): residue there is detected structurally with a mirror of the record layout.",
+   "DESIGN.md 4 C02")
+CHECKS["C03"] = ("fault_enumeration",
+   "fault injection by a scripted mock CA: exhaustive (request position x fault kind) enumeration plus proptest-generated multi-fault plans; invariant oracle over the installed files at every post-operation hook",
+   "Every position of an issuance crossed with every fault kind is injected singly (exhaustive) and in random combinations over several attempts, with and without a previously installed pair and kp_reuse; after every attempt the certificate file must parse and match the key file, and an attempt without a served certificate must leave an installed pair untouched.",
+   "CA/network faults only (hook failures and crashes between the two file writes are outside the property's quantifier).",
+   "DESIGN.md 4 C03, appendix B")
+CHECKS["C07"] = ("fault_enumeration",
+   "fault injection (mock CA faults, hook exit behaviours) enumerated exhaustively for single faults, proptest-generated multi-fault / multi-certificate plans; oracles: liveness of the process, one post-operation per attempt, truthfulness of is_success against the CA's log and the files, lower bound on the pause after a failure (shipped build)",
+   "The fault matrix, hook failures of every kind, random fault plans over several attempts and sets of certificates with a permanently failing subset are run against the real daemon; bounded-time completion is checked with a 120 s watchdog against 0.2 s typical.",
+   "Pause checked as 'no request within 1 s after the failed attempt ended' on the build without hooks; the upper bound of the pause is not judged (the statement gives none).",
+   "DESIGN.md 4 C07")
+CHECKS["C08"] = ("fault_enumeration",
+   "fault injection by a scripted mock CA: enumeration of (POST position x ACME error type x run length) and of non-problem error answers; oracle = per-request transmission counts, nonce chaining and payload identity in the CA's log",
+   "Each request position is answered with k consecutive errors of each type; the CA log must show min(k+1,10) consecutive, identical, validly signed transmissions chained by the newest nonce for recoverable types and exactly one for anything else; polling bounded by 20.",
+   "Waits are 0 s under the cargo feature (counts and classification are the shipped ones). GET positions: only 'error never taken for success'.",
+   "DESIGN.md 4 C08")
 PENDING = {}
 
 props = [json.loads(l) for l in open("/verif/properties.jsonl")]
